@@ -28,6 +28,20 @@ prop('C13',
   "Not decided: reply contents (counters, descriptions), sequences through the byte connection, encoder soundness of reply classes (C01).",
   "custom AST/CFG checker: registry exhaustiveness, effect intervals (exactly-once), def-use agreement, guard dominance, definiteness", "DESIGN.md 5/C13")
 
+prop('C04',
+  "Static analysis of /repo's current source: decides on all paths the structural necessary conditions of the FLOW_MOD/timeout "
+  "state machine - all five commands dispatch to a handler and an unknown one gets BAD_COMMAND; in ADD every rejection precedes any "
+  "table mutation, the strict removal of the identical (match, priority) entry precedes the insert and passes no reason, the "
+  "capacity test dominates the insert; strict variants pass strict=True, DELETE passes out_port/NONE->None/reason DELETE, MODIFY "
+  "falls through to ADD only when nothing matched; the out_port filter is conjoined into strict and non-strict matching; every "
+  "removal routine announces once with the removed entries; flow_removed objects come only from the notification handler, under "
+  "SEND_FLOW_REM and not EMERG, reachable for each of the reasons idle/hard/delete (guards evaluated under constant substitution) "
+  "and not for reason None; creation time written once, traffic touches only the idle clock, timeout tests pair clock and timeout "
+  "and are oriented so they cannot succeed early, expiry reasons match their lists, scans have no early exit. Decides these "
+  "conditions, not equivalence with the spec's table over histories.",
+  "Not decided: table contents over command sequences, subsumption semantics of matches_with_wildcards for overlapping matches (values), timing.",
+  "custom AST/CFG checker: must-precede ordering, guard dominance, effect intervals, argument agreement, guard evaluation under constant substitution, ownership", "DESIGN.md 5/C04")
+
 NOT_APPLICABLE = {
   'C16': "Address types: the statement is about numeric/textual agreement over the whole address domain (byte order, mask arithmetic, CIDR parsing, zero-run compression, round trips, rejection of malformed text) - results of computations on runtime values; no shape-level rule is a necessary and telling condition for it (DESIGN.md section 7).",
 }
